@@ -123,6 +123,8 @@ def _check_axioms(rep, curve, assoc):
 
     with core.Ctx() as ctx:
         R = mkring()
+        if assoc:
+            R.id_timeout_ms = 3000000
         ctx.ring = R
         x1, y1, x2, x3 = R.atom("x1"), R.atom("y1"), R.atom("x2"), R.atom("x3")
         b = y1 * y1 - x1 * x1 * x1                 # curve coefficient eliminated through P1
